@@ -330,8 +330,8 @@ func (s *Stack) ForEach(expr string, fn func(index int, value any) error) error 
 	rv := reflect.ValueOf(v)
 
 	// A pointer to a collection is the collection, as it is for paths (xs[0])
-	for rv.Kind() == reflect.Ptr {
-		if rv.IsNil() {
+	for depth := 0; rv.Kind() == reflect.Ptr; depth++ {
+		if rv.IsNil() || depth >= ireflect.MaxPointerDepth {
 			return nil
 		}
 		rv = rv.Elem()
